@@ -463,6 +463,9 @@ def run(run, scr, tier, seed, only=None):
             else:
                 run.inconclusive.append(f'range chain open and solver witness {cases} does not reproduce natively: {rep}')
     run.samples = [{'obligation': q.get('name'), 'verdict': q.get('verdict'), 'solver_s': q.get('solver_s')} for q in run.queries[:14]]
+    run.extra['bounds'] = ['butterfly lemmas: every loop state (j, len in {1,2,...,128}, j + len < 256), every zeta in [0,q) resp. (-q,0], every coefficient pair with |w| <= B, B symbolic up to 2^31-1-q (forward) / 2^30-1 (inverse)',
+                           'closure lemmas: every coefficient value in the stated input range; index inside the polynomial symbolic',
+                           'range chain: all inv_ntt / to_mont / mat_vec_mul call sites found in the MIR, L in {4, 5, 7}', 'composition to "equals the negacyclic product" is pen and paper (linearity + basis premise) and outside the solver']
     return run.finish(
         rule='one SMT query per lemma obligation over all loop states / coefficient values within the symbolic bound; chain rows are arithmetic comparisons of solver-proved producer bounds with the consumer precondition; '
              'non-trivial = distinct obligation with a solver verdict',
